@@ -520,8 +520,45 @@ struct Out {
     lines: usize,
 }
 
+// ---- watchdog: a request the implementation never answers (non-termination) ends the run with the history that hangs
+static TICK: std::sync::atomic::AtomicU64 = std::sync::atomic::AtomicU64::new(0);
+static HIST: std::sync::Mutex<Vec<String>> = std::sync::Mutex::new(Vec::new());
+static PENDING: std::sync::Mutex<String> = std::sync::Mutex::new(String::new());
+
+fn pending(line: &str) {
+    if let Ok(mut p) = PENDING.lock() { p.clear(); p.push_str(line); }
+}
+
+fn start_watchdog(outdir: String) {
+    let limit: u64 = std::env::var("VERIF_L_HANG_S").ok().and_then(|s| s.parse().ok()).unwrap_or(120);
+    std::thread::spawn(move || {
+        let mut last = TICK.load(std::sync::atomic::Ordering::Relaxed);
+        let mut since = std::time::Instant::now();
+        loop {
+            std::thread::sleep(std::time::Duration::from_millis(500));
+            let now = TICK.load(std::sync::atomic::Ordering::Relaxed);
+            if now != last { last = now; since = std::time::Instant::now(); continue; }
+            if since.elapsed().as_secs() >= limit {
+                let h = HIST.lock().map(|h| h.clone()).unwrap_or_default();
+                let p = PENDING.lock().map(|p| p.clone()).unwrap_or_default();
+                let mut txt = h.join("\n");
+                txt.push('\n');
+                if !p.is_empty() { txt.push_str(&p); txt.push('\n'); }
+                let _ = std::fs::write(format!("{}/hang.txt", outdir), txt);
+                std::process::exit(3);
+            }
+        }
+    });
+}
+
 impl Out {
     fn emit(&mut self, req: &str, imp: &str) {
+        TICK.fetch_add(1, std::sync::atomic::Ordering::Relaxed);
+        if let Ok(mut h) = HIST.lock() {
+            if req.starts_with("reset") { h.clear(); }
+            h.push(req.to_string());
+        }
+        pending("");
         writeln!(self.req, "{}", req).unwrap();
         writeln!(self.imp, "{}", imp).unwrap();
         self.lines += 1;
@@ -676,6 +713,7 @@ impl<'a> Session<'a> {
         self.stats.requests += 1;
         *self.stats.closes.entry(s.name().to_string()).or_default() += 1;
         let line = format!("close {}", s.name());
+        pending(&line);
         let before = self.ora.all_variants.len();
         let res = catch(|| self.sut.as_mut().unwrap().close(s));
         match res {
@@ -1233,6 +1271,8 @@ fn main() {
     let count: usize = args.get(3).and_then(|s| s.parse().ok()).unwrap_or(1000);
     let outdir = args.get(4).cloned().unwrap_or("/verif/.work/L".into());
     std::fs::create_dir_all(&outdir).unwrap();
+    let _ = std::fs::remove_file(format!("{}/hang.txt", outdir));
+    start_watchdog(outdir.clone());
     let mk = |n: &str| std::io::BufWriter::new(std::fs::File::create(format!("{}/{}", outdir, n)).unwrap());
     let mut out = Out { req: mk("req.txt"), imp: mk("impl.txt"), ora: mk("oracle.txt"), lines: 0 };
     // the synthetic resolver tables, announced to the model: its entry-point model (`Res.entryInfo`) answers from them
